@@ -2,6 +2,7 @@ import Rdpgw.Oracle.Tunnel
 import Rdpgw.Oracle.Policy
 import Rdpgw.Oracle.Rdp
 import Rdpgw.Oracle.Ntlm
+import Rdpgw.Oracle.Kdc
 
 /-!
 # rdpgw_oracle — line-protocol driver for the executable models
@@ -38,6 +39,10 @@ def dispatch (line : String) : String :=
     | "clientaddr" => cmdClientAddr m
     | "cookie" => cmdCookie m
     | "ntlm" => cmdNtlm m
+    | "kdc-decode" => cmdKdcDecode m
+    | "kdc-encode" => cmdKdcEncode m
+    | "kdc-reply" => cmdKdcReply m
+    | "kdc-status" => cmdKdcStatus m
     | "usertoken" => cmdUserToken m
     | "tokeninfo" => cmdTokenInfo m
     | _ => "bad-op"
